@@ -104,3 +104,15 @@ TEXT = dict(
           'the validator without ValidatorWithPreserveInvalidValues (the sentinel is dropped by design); string / array developer values in the sequence model.'),
     note='Trusted: Lean kernel; profile translator; line protocol; the binary64 model is tied to the hardware by differential testing, not proved against IEEE-754 text.',
 )
+
+# --- tie by translation (translators/go2lean, notes/go2lean.md + notes/go2lean-add-p.md; agreement theorems in
+# lean/FitProps/Go2LeanKitInt.lean, restated in lean/FitProps/C12Go2Lean.lean). Kept as a separate block.
+PROP['regen'] = PROP['regen'] + ['go2lean:kitint', 'go2lean:kitangle']
+PROP['go2lean_diff'] = PROP.get('go2lean_diff', []) + ['KitInt']
+PROP['theorems'] = PROP['theorems'] + [
+    'Fit.C12.C12_go2lean_toTime',
+    'Fit.C12.C12_go2lean_toDegrees',
+    'Fit.C12.C12_go2lean_piRadians',
+    'Fit.C12.C12_go2lean_tzOffset']
+PROP['trusted_base'] = PROP['trusted_base'] + [
+    "translators/go2lean (Go→Lean for a small subset of Go, notes/go2lean.md) re-translates the integer parts of kit/datetime/datetime.go (the guard of ToTime, TzOffsetHoursFromUint32) and kit/semicircles/semicircles.go (the guard of ToDegrees, the constant piRadians) from the current source on every run; C12_go2lean_* state that they are the guards / the constant of Fit.TimeAngle.toTime / toDegrees / conversionFactor; time.Time, Duration.Seconds() and all float arithmetic are outside the subset and stay tied by the family timeangle; trusted: the translator's rendering of the subset and FitModel/GoPrelude.lean"]
